@@ -240,6 +240,7 @@ class Pool():
             self._pending = 0
             self._pending_per_worker = { worker.id: [] for worker in self.workers }
             self._retries = []
+            results_in_flight = set() # workers found dead while enqueueing whose result stream has not been read to its end yet
             ret = []
 
             def next_inputs(worker):
@@ -281,9 +282,13 @@ class Pool():
                 self._pending -= len(self._pending_per_worker[worker.id])
                 self._pending_per_worker[worker.id].clear()
                 self._closed.add(worker.id)
+                results_in_flight.discard(worker.id)
                 if worker_callback:
                     worker_callback(worker, 'died')
 
+                retry_on_idle_workers()
+
+            def retry_on_idle_workers():
                 while self._retries:
                     idle = get_next_idle_worker()
                     if idle is None:
@@ -337,6 +342,16 @@ class Pool():
                         except:
                             time.sleep(0.1)
                             if not worker.is_alive():
+                                if self._pending_per_worker[worker.id] and worker.id in self._queues:
+                                    # answers to inputs enqueued earlier may still be waiting in the worker's pipe, so its
+                                    # pending inputs must not be retried yet: stop feeding it and handle its death when
+                                    # the end of its result stream is read
+                                    logger.warning('{} died while enqueueing, waiting for the end of its result stream', worker)
+                                    self._closed.add(worker.id)
+                                    results_in_flight.add(worker.id)
+                                    handle_unused_data(inp, from_retries)
+                                    retry_on_idle_workers()
+                                    return True
                                 handle_death(worker, 'while enqueueing')
                                 handle_unused_data(inp, from_retries)
                                 return True
@@ -392,7 +407,7 @@ class Pool():
                         logger.debug('Closing and forgetting output queue {} of worker {}', self._queues[wid], wid)
                         self._queues[wid].close()
                         del self._queues[wid]
-                        if wid not in self._closed:
+                        if wid not in self._closed or wid in results_in_flight:
                             msg = (None, False, None, wid)
                             logger.debug('Artificial closing message from worker {} created', wid)
                         else:
@@ -406,7 +421,7 @@ class Pool():
                     assert wid in self._workers
                     worker = self._workers.get(wid, None)
                     if not flag:
-                        if worker.id not in self._closed: # if a worker died while enqueueing, its death has already been handled but we will (possibly) end up here
+                        if worker.id not in self._closed or worker.id in results_in_flight: # if a worker died while enqueueing, its death has already been handled but we will (possibly) end up here
                             handle_death(worker)
                     else:
                         handle_new_result(worker, result)
